@@ -252,7 +252,9 @@ def expected_from_full(out, full, kind, arg):
     return exp, "mesh"
 
 
-def diff(exp, got, focus):
+def diff(exp, got, focus, whole_groups=False):
+    """whole_groups: the selection was over whole groups (a list of groups, groups switched off): a group it leaves out is not
+    returned at all, not even as an empty group."""
     problems = []
     for g in exp:
         if g not in got:
@@ -272,8 +274,8 @@ def diff(exp, got, focus):
                 kind = "kind-differs" if eg[k][0] != gg[k][0] else "values-or-unit-differ"
                 problems.append((f"{kind}:{g}", {"key": k, "expected": str(eg[k])[:200], "got": str(gg[k])[:200]}))
     for g in got:
-        if g not in exp and len(got[g]) > 0:
-            problems.append((f"group-not-requested-returned:{g}", {}))
+        if g not in exp and (len(got[g]) > 0 or whole_groups):
+            problems.append((f"group-not-requested-returned:{g}" + ("" if len(got[g]) else ":empty"), {}))
     return problems
 
 
@@ -311,7 +313,7 @@ def run_case(label, kind, arg, keep_dir=None):
     except KeyError as e:
         # the full load (made earlier in this process) does not hold a variable that is stored in the files
         return [("full-load-lacks-stored-variable", {"variable": str(e), "full_groups": {g: sorted(v) for g, v in full.items()}})]
-    return diff(exp, got, focus)
+    return diff(exp, got, focus, whole_groups=kind.partition("@")[0] in ("groups-list", "groups-off"))
 
 
 def cases(thorough):
